@@ -5,6 +5,7 @@ mod hasher;
 mod rng;
 mod anyn;
 mod s1_filters;
+mod s1l_bigfilters;
 mod s2_replicas;
 mod s2h_hll;
 mod s3_reservoir;
@@ -48,6 +49,7 @@ fn plan(ctx: &mut CheckCtx, k: f64) {
         "C01" => {
             ctx.run::<s1_filters::S1>(n(300_000));
             ctx.run::<s2_replicas::S2>(n(50_000));
+            ctx.run::<s1l_bigfilters::S1L>(n(600));
         }
         "C02" => {
             ctx.required_probes = vec!["row_collision", "net_reorder", "net_duplicate", "node_restart", "converged"];
@@ -56,16 +58,20 @@ fn plan(ctx: &mut CheckCtx, k: f64) {
         "C06" => {
             ctx.required_probes = vec!["net_reorder", "net_duplicate", "net_drop", "net_partition", "net_partition_blocked_delivery", "node_restart", "full_union", "converged", "algebra_commutativity", "algebra_associativity", "algebra_idempotence", "via_json_bytes"];
             ctx.run::<s2_replicas::S2>(n(200_000));
+            ctx.run::<s1l_bigfilters::S1L>(n(600));
         }
         "C12" => {
             ctx.run::<s1_filters::S1>(n(200_000));
+            ctx.run::<s1l_bigfilters::S1L>(n(600));
         }
         "C13" => {
             ctx.required_probes = vec!["cluster_wrap", "cluster_ge3_runs", "insert_head_of_run", "insert_middle_of_run", "insert_tail_of_run", "table_full"];
             ctx.run::<s1_filters::S1>(n(300_000));
+            ctx.run::<s1l_bigfilters::S1L>(n(600));
         }
         "C14" => {
             ctx.run::<s1_filters::S1>(n(150_000));
+            ctx.run::<s1l_bigfilters::S1L>(n(600));
         }
         "C04" => {
             ctx.run::<s4_digest::S4>(n(6_000));
@@ -141,6 +147,7 @@ fn replay(path: &str) -> i32 {
         "S2h-hll-stream-transport" => replay_case::<s2h_hll::S2h>(&doc, prop),
         "S7-lifecycle" => replay_case::<s7_lifecycle::S7>(&doc, prop),
         "S6-memory" => replay_case::<s6_memory::S6>(&doc, prop),
+        "S1L-filter-node-large" => replay_case::<s1l_bigfilters::S1L>(&doc, prop),
         "S4-digest" => replay_case::<s4_digest::S4>(&doc, prop),
         "S3a-reservoir-invariants" => replay_case::<s3_reservoir::S3a>(&doc, prop),
         "S3b-reservoir-uniformity" => replay_case::<s3_reservoir::S3b>(&doc, prop),
